@@ -13,10 +13,12 @@ import (
 
 // Convenience wrappers for common, well-formed operations.
 
-func bp(bucket string) string        { return "/" + URIEncode(bucket, true) }
-func op(bucket, key string) string   { return "/" + URIEncode(bucket, true) + "/" + URIEncode(key, false) }
-func MD5Hex(b []byte) string         { s := md5.Sum(b); return hex.EncodeToString(s[:]) }
-func MD5B64(b []byte) string         { s := md5.Sum(b); return base64.StdEncoding.EncodeToString(s[:]) }
+func bp(bucket string) string { return "/" + URIEncode(bucket, true) }
+func op(bucket, key string) string {
+	return "/" + URIEncode(bucket, true) + "/" + URIEncode(key, false)
+}
+func MD5Hex(b []byte) string            { s := md5.Sum(b); return hex.EncodeToString(s[:]) }
+func MD5B64(b []byte) string            { s := md5.Sum(b); return base64.StdEncoding.EncodeToString(s[:]) }
 func ObjPath(bucket, key string) string { return op(bucket, key) }
 func BucketPath(bucket string) string   { return bp(bucket) }
 
